@@ -291,7 +291,9 @@ fn make_plan(rng: &mut Rng, seed: u64) -> Plan {
     let fork_at = rng.range(len - 12, len - 5);
     // the first proof ends a little above the fork point, so that the later fork switch is within the remembered last-N headers
     let h1 = (fork_at + rng.range(1, 4)).min(len - 2);
-    if seed % 4 != 3 {
+    // (plan.seed = run seed * 10000 + history number) the histories of a run alternate: three targeted variants, three generated ones
+    let variant = (seed % 10_000) % 6;
+    if variant < 3 {
         // pending records above the fork point at the moment of the fork switch: filtering starts just below the fork point, one
         // batch ends at it, the next one lies entirely above it; the peer then switches to the other branch.
         // (A crash inside the switch restarts the client with the records in the store only.)
@@ -302,10 +304,10 @@ fn make_plan(rng: &mut Rng, seed: u64) -> Plan {
             Op::Download, Op::Filters { batch: 8 }, Op::Download, Op::Filters { batch: 8 }, Op::Download];
         // variant 1: the blocks above the fork point are downloaded and indexed BEFORE the switch, so that the rollback has real
         // index entries to undo (and the new branch puts other blocks at the same heights)
-        if seed % 4 >= 1 { ops.insert(5, Op::Download); }
+        if variant >= 1 { ops.insert(5, Op::Download); }
         // variant 2: ... and then the user re-registers one script from an older block (partial): filter progress is rewound BELOW
         // the fork point while the index of the other scripts still reaches the old tip - the switch has to roll that index back
-        if seed % 4 == 2 { ops.insert(6, Op::SetScripts { cmd: 1, list: vec![(0, true, fork_at.saturating_sub(6))] }); }
+        if variant == 2 { ops.insert(6, Op::SetScripts { cmd: 1, list: vec![(0, true, fork_at.saturating_sub(6))] }); }
         // last-N 4: the switch is 7 blocks ahead (sampled regime, the request starts at the stored tip, the honest answer carries a
         // reorg section) and 3 blocks deep (the fork point is remembered): the one path on which commit_prove_state rolls back
         return Plan { seed, len, fork_at, ops, last_n: 4 };
